@@ -141,7 +141,7 @@ SFl(f) == \/ FCheck(f) /\ Sil(f, IF f \in expired THEN <<>> ELSE Pt1(IF stopped 
           \/ (FWaitCtx(f) \/ FExpDone(f) \/ FExpCtx(f)) /\ Sil(f, <<>>)
           \/ batch = <<>> /\ pend[f] = <<>> /\ HExpLock(f) /\ l' = l /\ UNCHANGED <<pend, cancelled>>
 SSt(s) == \/ SSet(s) /\ Sil(s, Pt1("bsp.sd.stopped", 0)) /\ body' = s
-          \/ (SOnceWait(s) \/ SWait(s) \/ SCtx(s)) /\ Sil(s, <<>>) /\ UNCHANGED body
+          \/ (SOnce(s) \/ SOnceWait(s) \/ SWait(s) \/ SCtx(s)) /\ Sil(s, <<>>) /\ UNCHANGED body
 (* the helper goroutine of the Once body is started after the body's hook has returned *)
 SHs == body # "" /\ pend[body] = <<>> /\ HClose /\ Sil("hs", <<P("bsp.sd.closed", 0, body)>>)
 SEnv(c) == c \in cancelled /\ CtxExpire(c) /\ l' = l /\ UNCHANGED <<pend, cancelled>>
